@@ -6,6 +6,7 @@ import (
 	"fmt"
 	"math/rand"
 	"sync"
+	"sync/atomic"
 	"testing"
 	"time"
 
@@ -25,13 +26,20 @@ type c11Stream struct {
 }
 
 type c11Case struct {
-	UP4     bool        `json:"up4"`
+	UP4 bool `json:"up4"`
+	// Alloc (BESS): the UP allocates the UE addresses from a pool of six, so that a released address is
+	// handed to the next establishment of whichever association at once
+	Alloc   bool        `json:"alloc,omitempty"`
 	Streams []c11Stream `json:"streams"`
 	DelayUs int         `json:"delay_us"` // max random service delay of the datapath server
 }
 
 func genC11(t *rapid.T) c11Case {
 	c := c11Case{UP4: rapid.Bool().Draw(t, "up4"), DelayUs: rapid.SampledFrom([]int{0, 200, 2000}).Draw(t, "delay")}
+	c.Alloc = !c.UP4 && rapid.Bool().Draw(t, "alloc")
+	if c.Alloc && c.DelayUs == 0 {
+		c.DelayUs = 200
+	}
 	nPeers := rapid.IntRange(2, scale(6, 8)).Draw(t, "peers")
 	for p := 0; p < nPeers; p++ {
 		var st c11Stream
@@ -55,6 +63,15 @@ func genC11(t *rapid.T) c11Case {
 				ctx := mkSessCtx(t, idx, p)
 				op = model.Op{Kind: "est", Sess: idx, CPSEID: uint64(idx)}
 				op.PDRs, op.FARs, op.QERs = genRules(t, ruleKnobs{maxPairs: 2, choose: true, sdf: true, qers: true, buffer: true, ranges: true, accessN3: accessIP()}, ctx)
+				if c.Alloc {
+					for i := range op.PDRs {
+						if op.PDRs[i].Src == "core" {
+							op.PDRs[i].UEAlloc, op.PDRs[i].UEIP = true, ""
+						} else {
+							op.PDRs[i].HasUE, op.PDRs[i].UEIP = false, ""
+						}
+					}
+				}
 			}
 			op.Peer, op.Seq, op.Sess = 0, uint32(1000+k), idx
 			st.Ops = append(st.Ops, op)
@@ -78,7 +95,11 @@ func genC11(t *rapid.T) c11Case {
 				}
 				st.Ops = append(st.Ops, mod)
 			}
-			if rapid.IntRange(0, 3).Draw(t, "del") == 0 && len(live) > 0 {
+			delOneIn := 4
+			if c.Alloc {
+				delOneIn = 2 // keep the pool of six hovering around full: releases and establishments alternate
+			}
+			if rapid.IntRange(0, delOneIn-1).Draw(t, "del") == 0 && len(live) > 0 {
 				j := rapid.IntRange(0, len(live)-1).Draw(t, "dsi")
 				st.Ops = append(st.Ops, model.Op{Kind: "del", Seq: uint32(3000 + k), Sess: live[j]})
 				live = append(live[:j], live[j+1:]...)
@@ -93,7 +114,12 @@ func genC11(t *rapid.T) c11Case {
 }
 
 func runC11(c c11Case, ev *Ev) error {
-	r, err := newRig(RigOpts{UP4: c.UP4, Mut: func(conf *pfcpiface.Conf) {}})
+	r, err := newRig(RigOpts{UP4: c.UP4, Mut: func(conf *pfcpiface.Conf) {
+		if c.Alloc {
+			conf.CPIface.EnableUeIPAlloc = true
+			conf.CPIface.UEIPPool = "10.250.0.8/29"
+		}
+	}})
 	if err != nil {
 		return fmt.Errorf("INFRA: %v", err)
 	}
@@ -107,7 +133,14 @@ func runC11(c c11Case, ev *Ev) error {
 			return time.Duration(rnd.Intn(c.DelayUs+1)) * time.Microsecond
 		}
 		if r.B != nil {
-			r.B.Inject(func(b *rig.Bessd) { b.Delay = func(string, string) time.Duration { return d() } })
+			r.B.Inject(func(b *rig.Bessd) {
+				b.Delay = func(_, cmd string) time.Duration {
+					if c.Alloc && cmd == "delete" {
+						return 4 * d() // deletions linger: what they release is requested again meanwhile
+					}
+					return d()
+				}
+			})
 		} else {
 			r.P4.SetDelay(d)
 		}
@@ -125,6 +158,8 @@ func runC11(c c11Case, ev *Ev) error {
 		}
 	}
 	var wg sync.WaitGroup
+	var nRefused, occupied, dryEvents atomic.Int64
+	const poolSize = 6
 	errs := make([]error, len(c.Streams))
 	start := make(chan struct{})
 	for i, st := range c.Streams {
@@ -132,14 +167,43 @@ func runC11(c c11Case, ev *Ev) error {
 		go func(i int, st c11Stream) {
 			defer wg.Done()
 			<-start
+			refused := map[int]bool{}
 			for k, op := range st.Ops {
 				if st.Pause[k] > 0 {
 					time.Sleep(time.Duration(st.Pause[k]) * time.Microsecond)
 				}
+				if refused[op.Sess] {
+					continue // the session was refused for want of a free UE address: nothing to modify or delete
+				}
+				var dryBefore int64
+				var occStart int64
+				if c.Alloc && op.Kind == "est" {
+					op.Note = "any"
+					// occupied = addresses that may be taken: sessions accepted and not yet acknowledged as deleted,
+					// plus establishments in flight (this one included)
+					occStart = occupied.Add(1)
+					if occStart >= poolSize+1 {
+						dryEvents.Add(1)
+					}
+					dryBefore = dryEvents.Load()
+				}
 				o := runs[i].Exec(op)
+				if c.Alloc && op.Kind == "est" && !o.Accepted {
+					occupied.Add(-1)
+				}
+				if c.Alloc && op.Kind == "del" && o.Accepted {
+					occupied.Add(-1)
+				}
 				if o.NoResp || !o.Alive {
 					errs[i] = fmt.Errorf("peer %d op %d (%s session %d): no response (alive=%v)", i, k, op.Kind, op.Sess, o.Alive)
 					return
+				}
+				if c.Alloc && op.Kind == "est" && !o.Accepted && !o.NoResp && (occStart >= poolSize+1 || dryEvents.Load() != dryBefore) {
+					// six addresses for all associations: at some moment of this request the others may have held
+					// them all, so a refusal is a correct answer
+					refused[op.Sess] = true
+					nRefused.Add(1)
+					continue
 				}
 				if !o.Accepted {
 					errs[i] = fmt.Errorf("peer %d op %d: %s of its own session %d rejected with cause %d while other associations were busy", i, k, op.Kind, op.Sess, o.Cause)
@@ -251,13 +315,16 @@ func runC11(c c11Case, ev *Ev) error {
 		}
 	}
 	ev.Label(fmt.Sprintf("up4=%v/peers=%d", c.UP4, len(c.Streams)))
+	if c.Alloc {
+		ev.Label(fmt.Sprintf("alloc/pool-ran-dry=%v", nRefused.Load() > 0))
+	}
 	ev.Case(c, len(c.Streams) >= 3 && shared && maxInfl > 1, len(c.Streams))
 	return nil
 }
 
 func TestC11(t *testing.T) {
 	ev := newEv("C11")
-	ev.Rule = "fresh agent per case on BESS or UP4 under the race detector: 2-8 control-plane peers each run an own generated establish / Update FAR / delete stream at the same time with generated pacing, sharing gNB addresses and application filters on UP4, while the harness datapath server adds 0-2 ms random service delays; each peer's responses are checked against its own sequential model, the final tables against the union of the per-peer images, then everything is deleted concurrently and tables and pool counters (hook) must be back to start-up values; non-trivial = >= 3 peers, a shared gNB, and overlapping in-flight datapath RPCs observed; distinct by case"
+	ev.Rule = "fresh agent per case on BESS or UP4 under the race detector: 2-8 control-plane peers each run an own generated establish / Update FAR / delete stream at the same time with generated pacing, sharing gNB addresses and application filters on UP4, and on a third of the BESS cases drawing their UE addresses from a UP pool of six (an establishment may then be refused for want of an address), while the harness datapath server adds 0-2 ms random service delays; each peer's responses are checked against its own sequential model, the final tables against the union of the per-peer images, then everything is deleted concurrently and tables and pool counters (hook) must be back to start-up values; non-trivial = >= 3 peers, a shared gNB, and overlapping in-flight datapath RPCs observed; distinct by case"
 	ev.Assume = []string{"schedules are sampled (pacing, service delays, 16 busy cores), not enumerated; a window narrower than the jitter can be missed"}
 	runProp(t, ev, "streams", true, genC11, runC11)
 }
